@@ -1558,11 +1558,18 @@ def one_pass_iterable_rule(index, rep, rid, functions, param_names):
                          and ((isinstance(a.value.func, ast.Name) and a.value.func.id in _MATERIALISERS) or call_name(a.value) in ("get_taxa",))]
             mat_line = min([a.lineno for a in mat_stmts], default=None)
             bad = None
+            g0 = cfg_of(f)
+            rebind0 = {id(a) for a in walk_no_nested(f.node) if isinstance(a, ast.Assign) and any(isinstance(t, ast.Name) and t.id == p_ for t in a.targets)}
+            raw0 = {nd.id for nd in g0.reach([g0.entry], avoid=lambda nd: nd.stmt is not None and id(nd.stmt) in rebind0, follow_exc=False)}
             for x in ast.walk(f.node):
                 if not (isinstance(x, ast.Name) and x.id == p_ and isinstance(x.ctx, ast.Load)):
                     continue
-                if mat_line is not None and x.lineno > mat_line:
+                # flow-sensitive: a use counts only where the caller's own object can still arrive (not behind a rebinding on every path)
+                ndx = node_of_ast(g0, x)
+                if ndx is not None and ndx.id not in raw0 and not (ndx.stmt is not None and id(ndx.stmt) in rebind0):
                     continue
+                if ndx is not None and ndx.stmt is not None and id(ndx.stmt) in rebind0:
+                    continue        # the rebinding statement itself reads it once
                 par = pm.get(x)
                 if isinstance(par, ast.Compare) and all(isinstance(o, (ast.Is, ast.IsNot)) for o in par.ops):
                     continue
